@@ -152,8 +152,8 @@ func histConfig(a vh.Args, i int) histCfg {
 		cfg.restore = d.Bool()
 	}
 	// entry / snapshot compression and PreVote: the first two histories (R01) cover
-	// Snappy entries with the concurrent and with the on-disk kind (entries applied
-	// in batches), PreVote on and off; with CheckQuorum all four combinations occur
+	// Snappy entries with the concurrent kind (entries applied in batches) and plain
+	// entries with the on-disk kind, PreVote on and off; with CheckQuorum all four combinations occur
 	// in the first four
 	// topology: a second shard on the same hosts (history 0), five voters (history 3),
 	// a single voter with a non-voting replica (history 4: the ReadIndex shortcut of
@@ -182,7 +182,9 @@ func histConfig(a vh.Args, i int) histCfg {
 	// graceful restart
 	cfg.powerLoss = i%4 == 1 || i%4 == 3
 	if i < 4 {
-		cfg.entrySnappy = i != 2
+		// history 1 keeps plain entries: the uncompressed path of proposalShard.propose
+		// (caller's buffer, EncodedEntry without compression) must stay within R01's reach
+		cfg.entrySnappy = i == 0 || i == 3
 		cfg.snapSnappy = i == 0 || i == 2
 		cfg.preVote = i == 0 || i == 3
 	} else {
